@@ -561,6 +561,24 @@ class Typer:
                 if t not in sc.axioms.get(self.cls, []):
                     raise Violation(f'{self.caller}: load_axiom of {tshow(t)}, which is not a declared axiom of {self.cls}')
                 return ('pf', t)
+            if m in ('imp_trans_match1', 'imp_trans_match2') and len(args) == 2:
+                # transitivity with ONE side instantiated to fit the other (run-time matching in the code; decided here on terms:
+                # the instantiated side must be a pure schema - metavariables only - so that instantiating it is well defined)
+                h1, h2 = self.pf(args[0]), self.pf(args[1])
+                if not (is_imp(h1) and is_imp(h2)):
+                    raise Violation(f'{self.caller}: {m} on a premise that is not an implication')
+                schema_side, fixed = (h1, h2) if m == 'imp_trans_match1' else (h2, h1)
+                if _mentions_argument(schema_side):
+                    raise Decline(f'{self.caller}: {m} instantiates a premise that mentions an argument pattern')
+                if m == 'imp_trans_match1':
+                    sig = match_mv(h1[3], h2[2], {})
+                    if sig is None:
+                        raise Violation(f'{self.caller}: imp_trans_match1: {tshow(h1[3])} does not match {tshow(h2[2])}')
+                    return ('pf', IMP(subst_mv(h1[2], sig), h2[3]))
+                sig = match_mv(h2[2], h1[3], {})
+                if sig is None:
+                    raise Violation(f'{self.caller}: imp_trans_match2: {tshow(h2[2])} does not match {tshow(h1[3])}')
+                return ('pf', IMP(h1[2], subst_mv(h2[3], sig)))
             if m in sc.lemmas:
                 a = [self.val(x) for x in args]
                 kw = [(k, self.val(x)) for k, x in kwargs]
